@@ -153,29 +153,34 @@ func checkC06(c *Ctx) {
 	// ---- C06.2
 	r.Rule("C06.2", "a registration cannot become valid before its covert was overwritten with the checked literal", 2)
 	if f := c.fn("C06.2", lib, "RegistrationManager", "ingestRegistration"); f != nil {
-		var add *ssa.Call
-		for _, ci := range callsIn(f, shortIs("AddRegistration")) {
-			add = ci.(*ssa.Call)
-		}
-		var guardCall *ssa.Call
-		for _, ci := range callsIn(f, shortIs("ParseOrResolveBlocklisted")) {
-			guardCall = ci.(*ssa.Call)
-		}
-		if add == nil || guardCall == nil {
+		// the anchors, in ingestRegistration itself or in a helper / phase it delegates to
+		addL, ok1 := findOneDeep(f, shortIs("AddRegistration"))
+		guardL, ok2 := findOneDeep(f, shortIs("ParseOrResolveBlocklisted"))
+		if !ok1 || !ok2 {
 			r.Unk("C06.2", "ingestRegistration: AddRegistration / ParseOrResolveBlocklisted", f.Pos(), fnName(f), "not found")
 		} else {
-			res0 := pathOf(guardCall) + "#0"
-			isStore := func(in ssa.Instruction) bool {
-				st, ok := in.(*ssa.Store)
+			add := addL.site()
+			res0 := guardL.toRoot(pathOf(guardL.value())) + "#0"
+			stores := findInstrDeep(f, func(l located) bool {
+				st, ok := l.call.(*ssa.Store)
 				if !ok {
 					return false
 				}
 				o, fld, ok := fieldOwner(st.Addr)
-				return ok && o == "lib.DecoyRegistration" && fld == "Covert" && pathOf(st.Addr.(*ssa.FieldAddr).X) == "reg" && pathOf(st.Val) == res0
+				return ok && o == "lib.DecoyRegistration" && fld == "Covert" && l.toRoot(pathOf(st.Addr.(*ssa.FieldAddr).X)) == "reg" && l.toRoot(pathOf(st.Val)) == res0
+			}, 2)
+			skip := true
+			var w []int
+			for _, sl := range stores {
+				if alwaysBefore(addL, sl, nil) {
+					skip = false
+				}
 			}
-			skip, w := reach(f, nil, isInstr(add), isStore, nil)
-			g := guarded(f, add, Atom{"(" + orderEq(`""`, res0) + ")", false})
-			argOK := pathOf(argsOf(&guardCall.Call)[0]) == "reg.Covert" && pathOf(argsOf(&add.Call)[0]) == "reg"
+			if skip && len(stores) > 0 {
+				_, w = reach(f, nil, isInstr(add), isInstr(stores[0].site()), nil)
+			}
+			g := guardedDeep(addL, Atom{"(" + orderEq(`""`, res0) + ")", false})
+			argOK := guardL.toRoot(pathOf(argsOf(guardL.common())[0])) == "reg.Covert" && addL.toRoot(pathOf(argsOf(addL.common())[0])) == "reg"
 			if skip || !g || !argOK {
 				r.Bad("C06.2", "ingestRegistration: AddRegistration reachable without reg.Covert = <checked literal> (non-empty)", add.Pos(), fnName(f),
 					"a registration can be validated while its covert is still the client's string (a host name, or an address that was never checked): Proxy dials it later, resolving it again", r.blockPath(f, w)...)
@@ -234,7 +239,7 @@ func checkC06(c *Ctx) {
 	for _, f := range c.P.RepoFuncs() {
 		for _, st := range fieldStores(f, "lib.DecoyRegistration", "Covert") {
 			name := f.Name()
-			okW := (name == "NewRegistration" && freshRoot(st.Addr, f)) || name == "ingestRegistration" ||
+			okW := (name == "NewRegistration" && freshRoot(st.Addr, f)) || name == "ingestRegistration" || onlyCalledFrom(f, "ingestRegistration", 2) ||
 				(name == "register" && strings.HasSuffix(pathOf(st.Val), ".Covert")) // adoption of the checked covert (C06.2b)
 			r.Check(okW, "C06.3", fnName(f)+": writes DecoyRegistration.Covert", st.Pos(), fnName(f), "reviewed writer",
 				"the covert address of a registration is written outside construction and the admission step: a checked address can be replaced after the check")
@@ -363,4 +368,30 @@ func checkC06(c *Ctx) {
 	}
 	sort.Strings(seen)
 	_ = token.NoPos
+}
+
+
+// onlyCalledFrom: f is an unexported function that is only ever called (never started, stored or passed) and whose
+// every caller is the named function or, up to depth levels, a function that is itself only called from it.
+func onlyCalledFrom(f *ssa.Function, name string, depth int) bool {
+	if f.Object() == nil || f.Object().Exported() || f.Parent() != nil {
+		return false
+	}
+	sites, asValue := callersOf(f)
+	if asValue || len(sites) == 0 {
+		return false
+	}
+	for _, s := range sites {
+		p := s.Parent()
+		if p == nil {
+			return false
+		}
+		if p.Name() == name && p.Parent() == nil {
+			continue
+		}
+		if depth <= 0 || !onlyCalledFrom(p, name, depth-1) {
+			return false
+		}
+	}
+	return true
 }
